@@ -345,6 +345,39 @@ def check_xsi_primitive(case, col):
     return fails
 
 
+def check_type_valued_attributes(case, col):
+    """Labelled sub-check: an ordinary attribute whose value names a built-in XML Schema type through a declared prefix
+    (type="xs:string") is expanded by the parser as documented and must be written back as a prefixed name that resolves
+    to the same type - in generic elements and in wildcard attribute maps."""
+    fails = []
+    for tp in ("string", "int", "date", "anyURI"):
+        docs = [f'<root xmlns:xs="{XS}"><a type="xs:{tp}" k="v">t</a><b><c base="xs:{tp}"/></b></root>',
+                f'<root><a xmlns:q="{XS}" type="q:{tp}"><c xmlns:q="{XS}" ref="q:{tp}" k="plain"/></a></root>']
+        P = PLACEMENTS["list|##any|None"][3]
+        for data in docs:
+            for h in ("lxml", "native"):
+                for w in ("lxml", "native"):
+                    try:
+                        got = XmlParser(context=XmlContext(), handler=c01.HANDLERS[h]).from_bytes(data.encode(), P)
+                        out = XmlSerializer(context=XmlContext(), config=SerializerConfig(xml_declaration=False), writer=c01.WRITERS[w]).render(got)
+                        root = I.parse_strict(out.encode())
+                    except Exception as e:
+                        fails.append(Failure(exc_sig("type-valued-attribute-raise", e), f"{type(e).__name__}: {e}\ndocument: {data}", dict(case, only="typeattr")))
+                        continue
+                    seen = 0
+                    for el in root.iter("*"):
+                        for k, v in el.attrib.items():
+                            if k in ("type", "base", "ref"):
+                                seen += 1
+                                prefix, _, local = v.rpartition(":")
+                                if v.startswith("{") or not prefix or el.nsmap.get(prefix) != XS or local != tp:
+                                    fails.append(Failure("type-valued-attribute-roundtrip", f"{k}={v!r} no longer names {{{XS}}}{tp} through a prefix\n"
+                                                         f"input:  {data}\noutput: {out}", dict(case, only="typeattr")))
+                    if seen != 2:
+                        fails.append(Failure("type-valued-attribute-lost", f"input:  {data}\noutput: {out}", dict(case, only="typeattr")))
+    return fails
+
+
 def _values_only(c, drop_type=True):
     """canonical tree, optionally without xsi:type attributes (numeric datatypes are narrowed by value; the value must survive)."""
     if isinstance(c, str):
@@ -371,6 +404,9 @@ def execute(case, col):
     if (case.get("xsi") and only is None) or only == "xsi":
         col.label("sub-check:xsi-typed-primitives")
         fails += check_xsi_primitive(case, col)
+    if (case.get("xsi") and only is None) or only == "typeattr":
+        col.label("sub-check:type-valued-attributes")
+        fails += check_type_valued_attributes(case, col)
     return fails
 
 
